@@ -234,7 +234,7 @@ def listing_lines(ctx, n):
             p, info = rl[1]
             if not (isinstance(p, pathlib.PurePosixPath) and isinstance(info, dict) and info.get("type") in ("file", "dir", "unknown")):
                 ctx.violation("parse_list_line returned an ill-typed result", {"key": "c19-list-line-illtyped", "line": list(b), "encoding": e})
-        if em is not None and not isinstance(em, UnicodeDecodeError):
+        if em is not None and not isinstance(em, ValueError):
             ctx.violation(f"parse_mlsx_line raised {rm[1]}", {"key": f"c19-mlsx-class:{rm[1]}", "line": list(b), "encoding": e})
         for nm, r in (("unix", ru), ("windows", rw), ("list_line", rl), ("mlsx", rm)):
             seen_cls[f"{nm}:{r[1] if r[0] == 'exc' else 'ok'}"] += 1
@@ -379,7 +379,7 @@ def small_parsers(ctx, n):
         mo = m_res(o, lambda d: {sx.txt(k): sx.txt(v) for k, v in d})
         if mo != r and not (r[0] == "ok" and "Σ" in "".join(inf)):
             ctx.disagree("stat-mlst", inf, str(mo)[:200], str(r)[:200])
-        if ex is not None and not isinstance(ex, (IndexError,)):
+        if ex is not None and not isinstance(ex, (IndexError, ValueError)):
             ctx.violation(f"Client.stat raised {r[1]} on an MLST reply", {"key": f"c19-stat-class:{r[1]}", "info": inf})
         ctx.count("stat_mlst:" + (r[1] if r[0] == "exc" else "ok"))
     loop.close()
@@ -970,10 +970,10 @@ def correspondence(ctx, scale=1.0):
         "against the real server with a witness client. A case is non-trivial when its input is distinct (hash of input)."
     )
     x = []
-    x += listing_lines(ctx, int(9000 * f))
-    x += small_parsers(ctx, int(1500 * f))
+    x += listing_lines(ctx, int(16000 * f))
+    x += small_parsers(ctx, int(2000 * f))
     x += reply_and_command_streams(ctx, int(2500 * f))
-    x += lister_cases(ctx, int(350 * f))
+    x += lister_cases(ctx, int(500 * f))
     loop = asyncio.new_event_loop()
     try:
         loop.run_until_complete(live_server(ctx, hostile_payloads(ctx.rng, int(25 * f))))
